@@ -145,6 +145,9 @@ type mergeProcessor struct {
 	blockLS    linking.LinkSystem
 	encBlockLS linking.LinkSystem
 	col        *collection
+	// inactiveVersions are all the versions of col held by this node, loaded when a field
+	// that the active version does not have is met.
+	inactiveVersions []client.Collection
 
 	// docIDs contains all docIDs that have been merged so far by the mergeProcessor
 	docIDs map[string]struct{}
@@ -562,6 +565,15 @@ func (mp *mergeProcessor) initCRDTForType(ctx context.Context, crdtUnion crdt.CR
 		field := crdtUnion.GetFieldName()
 		fd, ok := mp.col.Definition().GetFieldByName(field)
 		if !ok {
+			// The field is not part of the active version. If another version that this node
+			// holds has it, it must still be merged: once that version is (re)activated the field
+			// would otherwise miss the write, and later writes of it would not follow it.
+			fd, ok, err = mp.getFieldOfInactiveVersion(ctx, field)
+			if err != nil {
+				return nil, err
+			}
+		}
+		if !ok {
 			// If the field is not part of the schema, we can safely ignore it.
 			return nil, nil
 		}
@@ -583,6 +595,35 @@ func (mp *mergeProcessor) initCRDTForType(ctx context.Context, crdtUnion crdt.CR
 			field,
 		)
 	}
+}
+
+// getFieldOfInactiveVersion returns the definition of the given field from the versions of
+// the collection that are not active on this node, if one of them has it.
+func (mp *mergeProcessor) getFieldOfInactiveVersion(
+	ctx context.Context,
+	field string,
+) (client.FieldDefinition, bool, error) {
+	if mp.inactiveVersions == nil {
+		cols, err := mp.col.db.getCollections(
+			ctx,
+			client.CollectionFetchOptions{
+				CollectionID:    immutable.Some(mp.col.Version().CollectionID),
+				IncludeInactive: immutable.Some(true),
+			},
+		)
+		if err != nil {
+			return client.FieldDefinition{}, false, err
+		}
+		mp.inactiveVersions = make([]client.Collection, 0, len(cols))
+		mp.inactiveVersions = append(mp.inactiveVersions, cols...)
+	}
+	for _, col := range mp.inactiveVersions {
+		fd, ok := col.Definition().GetFieldByName(field)
+		if ok {
+			return fd, true, nil
+		}
+	}
+	return client.FieldDefinition{}, false, nil
 }
 
 func getCollectionFromCollectionID(ctx context.Context, db *DB, collectionID string) (*collection, error) {
